@@ -1748,6 +1748,11 @@ class Parallel(Logger):
     def _wait_retrieval(self):
         """Return True if we need to continue retrieving some tasks."""
 
+        # An error has been registered (e.g. the input iterator raised while
+        # dispatching): enter the retrieval loop to raise it in the caller.
+        if self._aborting:
+            return True
+
         # If the input load is still being iterated over, it means that tasks
         # are still on the dispatch waitlist and their results will need to
         # be retrieved later on.
